@@ -1,6 +1,6 @@
 """Scenario generators for the generic `pc` flow (every scheme behind the PolynomialCommitment trait)."""
 from .proto import Case
-from .gen_common import rf, rf_nz, rf_uniform, rand_poly, R_BLS381
+from .gen_common import rf, rf_nz, rf_uniform, rand_poly, sweep_choice, R_BLS381
 
 R_JUBJUB = 6554484396890773809930967563523245729705921265872317281365359162392183254199
 
@@ -13,13 +13,13 @@ HIDING = ("marlin", "sonic", "ipa", "pst13", "hyrax")
 ALL = ("marlin", "sonic", "ipa", "pst13", "hyrax", "ligero_uni", "ligero_ml", "brakedown_ml")
 
 
-def _poly_uni(rng, p, maxlen):
-    return rand_poly(rng, maxlen, p)
+def _poly_uni(rng, p, maxlen, key="uni"):
+    return rand_poly(rng, maxlen, p, key=key)
 
 
-def _poly_ml(rng, p, nv):
+def _poly_ml(rng, p, nv, key="ml"):
     n = 1 << nv
-    shape = rng.choice(["dense", "dense", "zero", "const", "sparse", "one"])
+    shape = sweep_choice(rng, ("poly_ml", key), ["dense", "dense", "zero", "const", "sparse", "one"])
     if shape == "zero":
         return [0] * n, shape
     if shape == "const":
@@ -52,8 +52,9 @@ def _all_monomials(nv, deg):
 
 def _poly_pst13(rng, p, nv, deg, dense_ok=False):
     """sparse multivariate: tokens (coeff k (var pow){k})*, total degree <= deg; mixed monomials"""
-    shape = rng.choice(["mixed", "mixed", "zero", "const", "univariate_sum", "single"] + (["dense", "dense", "mixed", "topdeg"] if dense_ok else [])
-                       + (["powmix", "powmix", "topdeg"] if nv >= 2 and deg >= 3 else []))
+    opts = (["mixed", "mixed", "zero", "const", "univariate_sum", "single"] + (["dense", "dense", "mixed", "topdeg"] if dense_ok else [])
+            + (["powmix", "powmix", "topdeg"] if nv >= 2 and deg >= 3 else []))
+    shape = sweep_choice(rng, ("poly_pst13", tuple(opts)), opts)
     terms = {}
     if shape == "powmix":       # a repeated variable times a higher-indexed one (x_i^k * x_j ..., k >= 2, i < j), plus a few other terms
         for _ in range(rng.randint(1, 3)):
@@ -208,9 +209,9 @@ def make_case(rng, cid, scheme, tier, opts=None):
                 b = rng.choice(bounds_list)
                 maxlen = min(maxlen, b + 1)
                 bound = b
-            coeffs, shape = _poly_uni(rng, p, maxlen)
+            coeffs, shape = _poly_uni(rng, p, maxlen, key=scheme)
         elif scheme in MULTILINEAR:
-            coeffs, shape = _poly_ml(rng, p, num_vars)
+            coeffs, shape = _poly_ml(rng, p, num_vars, key=scheme)
         else:
             coeffs, shape = _poly_pst13(rng, p, num_vars, s, dense_ok=bool(opts.get("pst_grid")))
         if scheme == "hyrax":
